@@ -32,10 +32,11 @@ PROPS = {
     "C19": dict(bounded=dict(module="water_monitors.py", args=["--property", "C19"]), functions=["check_groundwater_table", "capillary_rise", "groundwater_inflow", "solution_single_time_step"], level="proof",
                 explanation="adjusted field capacity range / far table / saturation below the table / no table => zero fluxes", trusted_base=[]),
     "C05": dict(functions=["growing_degree_day", "cc_development", "biomass_accumulation", "HIref_current_day", "HIadj_pre_anthesis", "HIadj_pollination", "HIadj_post_anthesis", "harvest_index", "canopy_cover", "germination", "transpiration", "solution_single_time_step", "calculate_HIGC", "calculate_HI_linear", "root_development#body"], level="proof", safety=True,
-                bounded=dict(module="water_monitors.py", args=["--property", "C05"]),
+                bounded=[dict(module="water_monitors.py", args=["--property", "C05"]), dict(module="root_helper.py")],
                 explanation="E1: degree-day range and accumulation, canopy envelope, biomass monotone, harvest index <= reference and adjusted index <= reference x allowed increase, "
-                            "reference harvest index non-decreasing in adjusted time (two-copy obligation), zeros out of season; root-depth envelope and the day-to-day chaining of the "
-                            "stored harvest index are served by the BOUNDED monitors"),
+                            "reference harvest index non-decreasing in adjusted time (two-copy obligation), zeros out of season; rooting depth (real body of root_development over the ASSUMED, "
+                            "bounded-checked contract of its layer-walk helper): never below the minimum depth, never shrinks except onto a water table, never below a present table, no expansion "
+                            "before germination or in early senescence; the upper root envelope (Zmax) and the day-to-day chaining of the stored harvest index are served by the BOUNDED monitors"),
     "C06": dict(functions=["biomass_accumulation", "HIref_current_day", "transpiration", "canopy_cover", "irrigation", "solution_single_time_step"], level="proof",
                 bounded=dict(module="water_monitors.py", args=["--property", "C06"]),
                 explanation="per-step yield algebra and seasonal irrigation accumulation as postconditions of the daily step over the callee contracts; the summary row is written "
